@@ -391,6 +391,10 @@ func c10RunOne(c *ev.Ctx, forcedRef string, directed func(si int, dsPaths []stri
 			}
 		}
 		nops := r.Weighted([]int{2, 2, 3, 3, 2, 1, 1, 1, 1, 1, 1}) // 0..10
+		sameSize := directed == nil && len(dsPaths) > 0 && r.Chance(1, 3)
+		if sameSize {
+			nops = r.Range(6, 14)
+		}
 		if directed != nil {
 			nops = len(plan)
 		}
@@ -416,6 +420,15 @@ func c10RunOne(c *ev.Ctx, forcedRef string, directed func(si int, dsPaths []stri
 				if in.choice < 3 {
 					in.openPath = dsPaths[r.Intn(len(dsPaths))]
 					in.second = r.Chance(1, 12)
+					if sameSize {
+						// two handles on one dataset taking turns with changes that keep the
+						// header's size (each handle has its own copy of the header)
+						in.openPath = dsPaths[0]
+						in.second = k == 1
+						if in.choice == 2 {
+							in.choice = 0
+						}
+					}
 				}
 			}
 			var op hx.Op
@@ -468,12 +481,18 @@ func c10RunOne(c *ev.Ctx, forcedRef string, directed func(si int, dsPaths []stri
 						name = po.Attrs[r.Intn(len(po.Attrs))].Name
 					}
 					v := genAttrVal(r, r.Bool())
+					if sameSize && in.name == "" {
+						name, v = fmt.Sprintf("eq%d", r.Intn(5)), hx.ScalarOf(r, "i32")
+					}
 					if in.name != "" {
 						name, v = in.name, *in.val
 					}
 					op = hx.Op{K: "attr", Path: hkey, Name: name, Data: &v}
 				case 1: // attribute delete
 					name := fmt.Sprintf("a%d", r.Intn(14))
+					if sameSize {
+						name = fmt.Sprintf("eq%d", r.Intn(5))
+					}
 					if po != nil && len(po.Attrs) > 0 && r.Chance(2, 3) {
 						name = po.Attrs[r.Intn(len(po.Attrs))].Name
 					}
